@@ -32,7 +32,7 @@ def cases(tier, seed):
     for d in range(1, 5):
         for dim in range(d):
             for nop in (2, 3):
-                for rep in range(3 if not T else 30):
+                for rep in range(10 if not T else 80):
                     base = [rng.choice((1, 2, 3, 4)) for _ in range(d)]
                     ops = []
                     for j in range(nop):
@@ -45,9 +45,9 @@ def cases(tier, seed):
         for k in range(1, d + 1):
             widths = list(itertools.product(range(3), repeat=2))     # (before, after)
             combos = list(itertools.product(widths, repeat=k))
-            if len(combos) > (12 if not T else 250):
+            if len(combos) > (40 if not T else 600):
                 rng.shuffle(combos)
-                combos = combos[:(12 if not T else 250)]
+                combos = combos[:(40 if not T else 600)]
             for ci, pads in enumerate(combos):
                 for value in (0.0, 1.5, -2.0):
                     N = [rng.choice((1, 2, 3)) for _ in range(d)]
@@ -58,12 +58,12 @@ def cases(tier, seed):
         widths = list(itertools.product(range(3), repeat=2))
         combos = list(itertools.product(widths, repeat=d))
         rng.shuffle(combos)
-        for ci, pads in enumerate(combos[:(25 if not T else 400)]):
+        for ci, pads in enumerate(combos[:(80 if not T else 1000)]):
             for value in (0.0, 1.5, -2.0):
                 cs.append({'gen': 'pad', 'N': [rng.choice((1, 2, 3)) for _ in range(d)], 'M': [rng.choice((1, 2, 3)) for _ in range(d)],
                            'R': gens.rank_profile(rng, d, 'rand', 3), 'padding': [list(p) for p in pads], 'value': value, 'dtype': DT[ci % 4], 'vals': 'int'})
     # diag, mprod, to_ttm, conj, clone
-    for i in range(400 if not T else 8000):
+    for i in range(2000 if not T else 30000):
         d = rng.randint(1, 4)
         N = [rng.choice((1, 2, 3, 4)) for _ in range(d)]
         op = ['diag_t', 'diag_m', 'diag_m_rect', 'mprod1', 'mprodL', 'to_ttm', 'conj', 'clone', 'conj_m', 'clone_m'][i % 10]
